@@ -128,14 +128,14 @@ func c16RunPeer(c *fw.C, caseID string) {
 	s := c15Open(mc, x.pm, "supplier")
 	defer s.close()
 	reqs := make(chan c15In, 4096)
-	s.onMsg = func(in c15In) {
+	s.setOnMsg(func(in c15In) {
 		if in.code == 3 || in.code == 5 || in.code == 8 {
 			select {
 			case reqs <- in:
 			default:
 			}
 		}
-	}
+	})
 	if st := s.handshake(e, top, e.hashes[top]); st != "ok" {
 		c.Inconclusive("supplier handshake: " + st)
 		return
